@@ -1,6 +1,7 @@
 (* Properties_C15.v — C15: Expect: 100-continue is answered before the server waits for the body. *)
 From Via Require Import M_Char M_Encode M_Parse M_Receive M_Server P_Server.
 From Via Require Import M_Imp M_Query Gen_Parse P_Query.
+From Via Require Import M_Loop M_Hdr M_Msg M_Chunk M_Recv P_Imp P_Loop P_Hdr P_Msg P_Frag P_C05 P_C06b P_Chunk P_Recv.
 Local Open Scope N_scope.
 
 Theorem C15_at_most_one_continue_content_length : forall cfg rp v b,
@@ -37,3 +38,16 @@ Theorem C15_is_chunked_is_the_source : forall q, rq_ev q rq_is_chunked_src = hd_
 Proof. exact rq_is_chunked_is_the_source. Qed.
 Print Assumptions C15_expect_continue_is_the_source.
 Print Assumptions C15_is_chunked_is_the_source.
+
+(* the function that decides the interim response is the translated source as a whole (see Properties_C02.v) *)
+Theorem C15_receive_is_the_source : forall cfg v buf fuel,
+  body_inv v ->
+  hd_ok (rq_headers (rv_req v)) -> rc_inv (c_lim cfg) (rv_chunk v) -> hd_ok (rc_trailers (rv_chunk v)) ->
+  small (ck_max (rc_hdr (rv_chunk v))) -> small (c_max_content cfg) -> small (nlen (rv_body v)) ->
+  (length buf + 2 <= fuel)%nat ->
+  rrun (rl_lim (c_lim cfg)) (fl_lim (c_lim cfg)) (hd_lim (c_lim cfg)) (ck_lim (c_lim cfg)) (rcode_of (c_lim cfg))
+       (c_max_content cfg) (c_translate_head cfg) (c_concat cfg) rv_clear_src fuel rv_receive_src (rv_store v) buf =
+  (let '(v', rest, r) := receive cfg v buf in
+   match rx_of r with Some c => Some (c, rv_store v', rest) | None => None end).
+Proof. exact receive_is_the_source. Qed.
+Print Assumptions C15_receive_is_the_source.
